@@ -26,6 +26,7 @@ from props import crystal_family as F
 from props import sbc_terms as T
 
 LEVEL = "other"
+ENUMERATION_SEED = 20260929
 STATIC = ["Sbc/ConditionalProofs.vo", "Sbc/Conditional.vo", "Sbc/PipelineProofs.vo", "Sbc/Pipeline.vo",
           "Sbc/ClusterCacheProofs.vo", "Base/CaseUtil.vo"]
 PID = "C02"
@@ -306,7 +307,10 @@ def run(ctx):
         broken.append({"stage": "prove", "file": pres["failed"]["path"], "error": pres["failed"]["out"][-1500:]})
 
     quick = ctx.tier == "quick"
-    keys = F.c02_quick_keys(40) if quick else F.c02_thorough_keys(ctx.rng, 2000)
+    # the enumeration is fixed by a constant, NOT by VERIF_SEED: members on which the pinned tree fails are listed one by one in
+    # known_findings.json, which is only possible for a fixed list (every member carries its own seed, derived from its key)
+    import random as _random
+    keys = F.c02_quick_keys(40) if quick else F.c02_thorough_keys(_random.Random(ENUMERATION_SEED), 2000)
     max_atoms = 330 if quick else 420
     built, rejected, skipped = build_members(keys, max_atoms, F.c02_member)
     built = built[:40] if quick else built[:600]
